@@ -8,3 +8,11 @@ import BklProofs.C15
 #print axioms Bkl.C15_empty_when_equal
 #print axioms Bkl.C15_same_iff
 #print axioms Bkl.C15_delete_entry_accepted
+#print axioms Bkl.C15_tool_format_choice
+#print axioms Bkl.C15_getOnlyDocument_iff
+#print axioms Bkl.C15_bkld_result_iff
+#print axioms Bkl.C15_bkld_result
+#print axioms Bkl.C15_bkld_sample
+#print axioms Bkl.C15_bkld_cli_roundtrip
+#print axioms Bkl.C15_bkld_cli_roundtrip_parser
+#print axioms Bkl.C15_one_document_required
